@@ -232,10 +232,55 @@ impl Builder for WriteBatch {
 
 //////////////////////////////////////////// LogBuilder ////////////////////////////////////////////
 
+/// A writer that stops at its first I/O error.
+///
+/// BufWriter keeps the bytes of a write that failed and hands them to the file with the next flush
+/// (or when it is dropped) --- after the caller was told that the append failed.  The log would then
+/// hold a batch that was never acknowledged and that the memtable of the running process never saw.
+/// Once this writer has reported an error it refuses every further byte, so that a failed append
+/// stays failed and the builder is finished.
+struct FailStop<W: std::io::Write> {
+    inner: W,
+    failed: bool,
+}
+
+impl<W: std::io::Write> FailStop<W> {
+    fn check<T>(&mut self, res: std::io::Result<T>) -> std::io::Result<T> {
+        if let Err(err) = res.as_ref() {
+            if err.kind() != ErrorKind::Interrupted {
+                self.failed = true;
+            }
+        }
+        res
+    }
+
+    fn stopped() -> std::io::Error {
+        std::io::Error::other("log writer stopped after an I/O error")
+    }
+}
+
+impl<W: std::io::Write> std::io::Write for FailStop<W> {
+    fn write(&mut self, buf: &[u8]) -> std::io::Result<usize> {
+        if self.failed {
+            return Err(Self::stopped());
+        }
+        let res = self.inner.write(buf);
+        self.check(res)
+    }
+
+    fn flush(&mut self) -> std::io::Result<()> {
+        if self.failed {
+            return Err(Self::stopped());
+        }
+        let res = self.inner.flush();
+        self.check(res)
+    }
+}
+
 /// A LogBuilder is a non-concurrent log writer.
 pub struct LogBuilder<W: Write> {
     options: LogOptions,
-    output: BufWriter<W>,
+    output: BufWriter<FailStop<W>>,
     bytes_written: u64,
     setsum: Setsum,
 }
@@ -259,14 +304,23 @@ impl LogBuilder<File> {
     pub fn fsync(&mut self) -> Result<(), SError> {
         FSYNC.click();
         io_result_with_context(self.output.flush(), "log builder flush")?;
-        io_result_with_context(self.output.get_mut().sync_data(), "log builder sync_data")
+        io_result_with_context(
+            self.output.get_mut().inner.sync_data(),
+            "log builder sync_data",
+        )
     }
 }
 
 impl<W: Write> LogBuilder<W> {
     /// Create a new LogBuilder from options and a write.
     pub fn from_write(options: LogOptions, write: W) -> Result<Self, SError> {
-        let output = BufWriter::with_capacity(options.write_buffer, write);
+        let output = BufWriter::with_capacity(
+            options.write_buffer,
+            FailStop {
+                inner: write,
+                failed: false,
+            },
+        );
         Ok(Self {
             options,
             output,
@@ -399,7 +453,8 @@ impl<W: Write> Builder for LogBuilder<W> {
             self.setsum,
             self.output
                 .into_inner()
-                .map_err(|_| logic_error_buf_writer_into_inner_failed())?,
+                .map_err(|_| logic_error_buf_writer_into_inner_failed())?
+                .inner,
         ))
     }
 }
@@ -533,7 +588,7 @@ impl<W: Write + AsRawFd> ConcurrentLogBuilder<W> {
 
     /// Create a new ConcurrentLogBuilder from the provided builder.
     pub fn from_builder(builder: LogBuilder<W>) -> Result<Self, SError> {
-        let raw_builder = builder.output.get_ref().as_raw_fd();
+        let raw_builder = builder.output.get_ref().inner.as_raw_fd();
         let write_cq = WorkCoalescingQueue::new(WriteCoalescingCore {
             builder,
             written: 0,
